@@ -339,7 +339,7 @@ def gated_send(role):
         pair.close()
 
 
-def fragmented_inbound(role, rng):
+def fragmented_inbound(role, rng, keepalive=False):
     """The subject's own send counter reaches the rekey threshold (a user-thread send), so it starts a re-exchange;
     a CHANNEL_DATA of the peer is in flight and reaches the subject in fragments smaller than one cipher block with
     idle socket timeouts in between, ahead of the peer's kex packets."""
@@ -366,6 +366,9 @@ def fragmented_inbound(role, rng):
         peer_ch.sendall(payload)                            # in flight
         mark = len(tap.tx)
         pk = sub.packetizer
+        if keepalive:
+            sub.set_keepalive(0.01)                          # keepalives enabled, interval shorter than the idle gaps
+        out["keepalive"] = bool(keepalive)
         pk.REKEY_PACKETS = pk._Packetizer__sent_packets + 1  # the next packet we send reaches the threshold
         sub_ch.sendall(b"trigger")                          # send-side trigger (user thread = this thread)
         pk.REKEY_PACKETS = 2 ** 29
@@ -374,7 +377,8 @@ def fragmented_inbound(role, rng):
                      "the subject to start the re-exchange")
         cut1 = rng.randrange(1, 8)
         cut2 = rng.randrange(1, 8)
-        gate.script = [cut1, "t", cut2, "t", "t"]           # fragments below one cipher block, idle gaps
+        gap = "T" if keepalive else "t"                     # "T": a real pause longer than the keepalive interval
+        gate.script = [cut1, gap, cut2, gap, "t"]           # fragments below one cipher block, idle gaps
         out["fragments"] = [cut1, "t", cut2, "t", "t"]
         gate.gate.set()
 
@@ -386,6 +390,8 @@ def fragmented_inbound(role, rng):
         t0 = time.time()
         while not settled() and time.time() - t0 < 12:
             time.sleep(0.01)
+        if keepalive:
+            sub.set_keepalive(0)
         for t in (sub, peer):
             if not t.is_active():
                 t.join(10)
@@ -820,10 +826,10 @@ def run(ctx):
             ctx.fail("in-flight-message-lost:received-bytes-trigger", o, "channel data not delivered intact")
 
     # ---------------- send-side threshold trigger while an inbound packet arrives in fragments with idle gaps
-    for role in ("server", "client"):
-        o = fragmented_inbound(role, ctx.rng)
-        ctx.case(("fragmented-inbound", role, tuple(o.get("fragments", []))), True)
-        ctx.dist("fragmented-inbound:" + role)
+    for role, ka in (("server", False), ("client", False), ("server", True), ("client", True)):
+        o = fragmented_inbound(role, ctx.rng, ka)
+        ctx.case(("fragmented-inbound", role, ka, tuple(o.get("fragments", []))), True)
+        ctx.dist("fragmented-inbound:" + role + (":keepalive" if ka else ""))
         ctx.sample(o, limit=14)
         offending = [t for t in o["window"] if t >= 50]
         if not o["need_rekey_after_send"]:
@@ -834,9 +840,9 @@ def run(ctx):
             ctx.broken.append({"kind": "harness", "what": "fragmented-inbound",
                                "detail": "the fragments did not hit the packet header read: %r" % (o.get("first_scripted_read_asked_for"),)})
         if offending:
-            ctx.fail("reply-during-kex:data:fragmented-inbound", o, "types %r between KEXINIT and NEWKEYS" % offending)
+            ctx.fail("reply-during-kex:data:fragmented-inbound" + (":keepalive" if ka else ""), o, "types %r between KEXINIT and NEWKEYS" % offending)
         elif not o["completed"]:
-            ctx.fail("re-exchange-fails:fragmented-inbound-with-send-trigger", o,
+            ctx.fail("re-exchange-fails:fragmented-inbound-with-send-trigger" + (":keepalive" if ka else ""), o,
                      "subject %s (%s) peer %s" % (o["sub_exc"], o["sub_site"], o["peer_exc"]))
         elif not o["delivered"]:
             ctx.fail("in-flight-message-lost:fragmented-inbound-with-send-trigger", o, "channel data not delivered intact")
